@@ -569,6 +569,12 @@ func (req *Request) Process(store StorageClient, stat *Stats) (resp *Response, e
 		resp.Status = "INCR"
 		resp.Msg = strconv.Itoa(result)
 
+	case "decr":
+		// decr is parsed (and accounted for) like incr but not supported by the storage
+		cmem.DBRL.SetData.SubCount(1)
+		resp.Status = "SERVER_ERROR"
+		resp.Msg = "operation not support"
+
 	case "delete":
 		key := req.Keys[0]
 		var suc bool
